@@ -455,3 +455,307 @@ Proof.
   - apply strip_value_temps; try assumption. rewrite keys_combine_seq. exact Hwf.
   - apply cz_irrelevant. exact Hrun.
 Qed.
+
+(* ------------------------------------------------------------------ *)
+(* mantissa_bounded                                                     *)
+Lemma trace_mantissa_one : forall prog temps e,
+  Forall (fun t => fst t <> 0 -> snd (snd t) = 1) (R_trace prog temps e).
+Proof.
+  induction prog as [|i prog IH]; intros temps e; unfold R_trace in *; cbn [trace].
+  - constructor.
+  - destruct i as [p u | p l r b].
+    + destruct (tget R p temps); [apply IH | constructor].
+    + destruct (tpop R l temps) as [[xl t1]|]; [|constructor].
+      destruct (tpop R r t1) as [[xr t2]|]; [|constructor].
+      constructor; [|apply IH].
+      cbn [fst snd]. intro H. apply R_maxabs_divs. exact H.
+Qed.
+
+(* the exponent recorded after each step is the running sum of log10(factor) *)
+Fixpoint running_sums (e : R) (fs : list R) : list R :=
+  match fs with [] => [] | f :: r => (e + log10 f) :: running_sums (e + log10 f) r end.
+Lemma trace_exponent_sum : forall prog temps e,
+  map (fun t => fst (snd t)) (R_trace prog temps e) =
+  running_sums e (map fst (R_trace prog temps e)).
+Proof.
+  induction prog as [|i prog IH]; intros temps e; unfold R_trace in *; cbn [trace].
+  - reflexivity.
+  - destruct i as [p u | p l r b].
+    + destruct (tget R p temps); [apply IH | reflexivity].
+    + destruct (tpop R l temps) as [[xl t1]|]; [|reflexivity].
+      destruct (tpop R r t1) as [[xr t2]|]; [|reflexivity].
+      cbn [map fst snd running_sums]. f_equal. apply IH.
+Qed.
+
+Lemma fsum_abs_bound : forall (l : list R) c, (forall v, In v l -> Rabs v <= c) ->
+  Rabs (fsum R 0 Rplus l) <= INR (length l) * c.
+Proof.
+  intros l c. induction l as [|v l IH]; intro H; unfold fsum in *.
+  - cbn. rewrite Rabs_R0. lra.
+  - cbn [fold_right length]. rewrite S_INR.
+    eapply Rle_trans; [apply Rabs_triang|].
+    assert (Rabs v <= c) by (apply H; left; reflexivity).
+    assert (Rabs (fold_right Rplus 0 l) <= INR (length l) * c)
+      by (apply IH; intros w Hw; apply H; right; exact Hw).
+    lra.
+Qed.
+
+(* every entry of a pairwise contraction is bounded by K * max|x| * max|y|, K the number
+   of products summed into one output entry (the contracted volume) *)
+Lemma bil_entry_bound : forall (t : bil) x y K v,
+  (forall row, In row t -> (length row <= K)%nat) ->
+  In v (R_bil t x y) -> Rabs v <= INR K * (R_maxabs x * R_maxabs y).
+Proof.
+  intros t x y K v HK Hv. unfold R_bil, bil_apply in Hv.
+  apply in_map_iff in Hv. destruct Hv as [row [Ev Hrow]]. subst v.
+  pose proof (R_maxabs_nonneg x) as Hx. pose proof (R_maxabs_nonneg y) as Hy.
+  eapply Rle_trans.
+  - apply fsum_abs_bound with (c := R_maxabs x * R_maxabs y).
+    intros w Hw. apply in_map_iff in Hw. destruct Hw as [[i j] [Ew _]]. subst w. cbn [fst snd].
+    rewrite Rabs_mult. apply Rmult_le_compat; try apply Rabs_pos; apply R_maxabs_nth.
+  - rewrite map_length. apply Rmult_le_compat_r.
+    + apply Rmult_le_pos; assumption.
+    + apply le_INR. apply HK. exact Hrow.
+Qed.
+
+Lemma bil_maxabs_bound : forall (t : bil) x y K,
+  (forall row, In row t -> (length row <= K)%nat) ->
+  R_maxabs (R_bil t x y) <= INR K * (R_maxabs x * R_maxabs y).
+Proof.
+  intros t x y K HK.
+  assert (H0 : 0 <= INR K * (R_maxabs x * R_maxabs y)).
+  { apply Rmult_le_pos; [apply pos_INR | apply Rmult_le_pos; apply R_maxabs_nonneg]. }
+  assert (G : forall z, (forall v, In v z -> Rabs v <= INR K * (R_maxabs x * R_maxabs y)) ->
+              R_maxabs z <= INR K * (R_maxabs x * R_maxabs y)).
+  { induction z as [|w z IH]; intro H.
+    - unfold R_maxabs, maxabs. cbn. exact H0.
+    - rewrite R_maxabs_cons. apply Rmax_lub.
+      + apply H. left. reflexivity.
+      + apply IH. intros v Hv. apply H. right. exact Hv. }
+  apply G. intros v Hv. eapply bil_entry_bound; eassumption.
+Qed.
+
+(* the float64 range statement, over the reals: operands of magnitude at most 10^100
+   (raw inputs in 1e-100..1e100, or mantissas, whose magnitude is 1) and a contracted
+   volume of at most 10^100 give entries of magnitude at most 10^300 < 1.79e308 *)
+Lemma bil_in_range : forall (t : bil) x y K,
+  (forall row, In row t -> (length row <= K)%nat) ->
+  INR K <= 10 ^ 100 -> R_maxabs x <= 10 ^ 100 -> R_maxabs y <= 10 ^ 100 ->
+  R_maxabs (R_bil t x y) <= 10 ^ 300.
+Proof.
+  intros t x y K HK Hk Hx Hy.
+  eapply Rle_trans; [apply bil_maxabs_bound; exact HK|].
+  replace (10 ^ 300) with (10 ^ 100 * (10 ^ 100 * 10 ^ 100)).
+  - pose proof (R_maxabs_nonneg x). pose proof (R_maxabs_nonneg y).
+    apply Rmult_le_compat; try apply pos_INR; try assumption.
+    + apply Rmult_le_pos; assumption.
+    + apply Rmult_le_compat; assumption.
+  - rewrite <- !pow_add. reflexivity.
+Qed.
+
+(* ------------------------------------------------------------------ *)
+(* add_maybe_exponent_stripped and gather_slices                        *)
+Lemma R_mscale_r_1 : forall m, R_mscale_r m 1 = m.
+Proof.
+  intros [x|c]; unfold R_mscale_r, mscale_r, scale_r.
+  - f_equal. rewrite <- (map_id x) at 2. apply map_ext. intro. ring.
+  - f_equal. ring.
+Qed.
+
+Lemma R_mscale_r_mul : forall m a b, R_mscale_r (R_mscale_r m a) b = R_mscale_r m (a * b).
+Proof.
+  intros [x|c] a b; unfold R_mscale_r, mscale_r, scale_r.
+  - f_equal. rewrite map_map. apply map_ext. intro. ring.
+  - f_equal. ring.
+Qed.
+
+Lemma vadd_scale_r : forall x y a,
+  map (fun v => v * a) (R_vadd x y) = R_vadd (map (fun v => v * a) x) (map (fun v => v * a) y).
+Proof.
+  induction x as [|v x IH]; intros [|w y] a; unfold R_vadd in *; cbn [vadd map]; try reflexivity.
+  f_equal; [ring | apply IH].
+Qed.
+
+Lemma R_mscale_r_madd : forall m1 m2 a,
+  R_mscale_r (R_madd m1 m2) a = R_madd (R_mscale_r m1 a) (R_mscale_r m2 a).
+Proof.
+  intros [x|c] [y|d] a; unfold R_mscale_r, R_madd, mscale_r, madd, scale_r; f_equal.
+  - apply vadd_scale_r.
+  - rewrite !map_map. apply map_ext. intro. ring.
+  - rewrite !map_map. apply map_ext. intro. ring.
+  - ring.
+Qed.
+
+Lemma add_stripped_value : forall x y, R_value (R_add x y) = R_madd (R_value x) (R_value y).
+Proof.
+  intros x y.
+  assert (G : forall xm xe ym ye,
+    R_mscale_r (R_madd (R_mscale_r xm (pow10 (xe - Rmax xe ye)))
+                       (R_mscale_r ym (pow10 (ye - Rmax xe ye)))) (pow10 (Rmax xe ye)) =
+    R_madd (R_mscale_r xm (pow10 xe)) (R_mscale_r ym (pow10 ye))).
+  { intros. rewrite R_mscale_r_madd, !R_mscale_r_mul, !pow10_diff. reflexivity. }
+  destruct x as [xm|xm xe], y as [ym|ym ye]; unfold R_add, add_maybe; cbn [R_value].
+  - reflexivity.
+  - fold R_mscale_r R_madd. rewrite G, pow10_0, R_mscale_r_1. reflexivity.
+  - fold R_mscale_r R_madd. rewrite G, pow10_0, R_mscale_r_1. reflexivity.
+  - fold R_mscale_r R_madd. apply G.
+Qed.
+
+Lemma fold_add_value : forall rest s,
+  R_value (fold_left R_add rest s) = fold_left R_madd (map R_value rest) (R_value s).
+Proof.
+  induction rest as [|t rest IH]; intro s; cbn [fold_left map].
+  - reflexivity.
+  - rewrite IH, add_stripped_value. reflexivity.
+Qed.
+
+Lemma gather_sum_value : forall s rest r,
+  R_gather_sum (s :: rest) = Some r ->
+  R_value r = fold_left R_madd (map R_value rest) (R_value s).
+Proof.
+  intros s rest r H. unfold R_gather_sum, gather_sum in H. injection H as E. subst r.
+  apply fold_add_value.
+Qed.
+
+(* grouping slices into output chunks commutes with taking values *)
+Fixpoint vchunk_add (k : nat) (v : mant R) (chunks : list (nat * mant R)) : list (nat * mant R) :=
+  match chunks with
+  | [] => [(k, v)]
+  | (k', c) :: rest => if Nat.eqb k' k then (k', R_madd c v) :: rest
+                       else (k', c) :: vchunk_add k v rest
+  end.
+Definition vgroup (keyed : list (nat * mant R)) : list (nat * mant R) :=
+  fold_left (fun chunks kv => vchunk_add (fst kv) (snd kv) chunks) keyed [].
+Definition kvalue (ks : nat * sval R R) : nat * mant R := (fst ks, R_value (snd ks)).
+
+Lemma chunk_add_value : forall k s chunks,
+  map kvalue (chunk_add R R Rplus Rmult 0 Rmax (fun a b => pow10 (a - b)) k s chunks) =
+  vchunk_add k (R_value s) (map kvalue chunks).
+Proof.
+  intros k s chunks. induction chunks as [|[k' c] chunks IH]; cbn [chunk_add map vchunk_add].
+  - reflexivity.
+  - unfold kvalue at 2. cbn [fst snd]. destruct (Nat.eqb k' k).
+    + cbn [map]. unfold kvalue at 1. cbn [fst snd]. fold R_add.
+      rewrite add_stripped_value. reflexivity.
+    + cbn [map]. rewrite IH. reflexivity.
+Qed.
+
+Lemma group_chunks_value : forall keyed,
+  map kvalue (R_group keyed) = vgroup (map kvalue keyed).
+Proof.
+  intro keyed. unfold R_group, group_chunks, vgroup.
+  assert (G : forall acc,
+    map kvalue (fold_left (fun chunks ks =>
+       chunk_add R R Rplus Rmult 0 Rmax (fun a b => pow10 (a - b)) (fst ks) (snd ks) chunks) keyed acc) =
+    fold_left (fun chunks kv => vchunk_add (fst kv) (snd kv) chunks) (map kvalue keyed) (map kvalue acc)).
+  { induction keyed as [|ks keyed IH]; intro acc; cbn [fold_left map].
+    - reflexivity.
+    - rewrite IH, chunk_add_value. reflexivity. }
+  apply (G []).
+Qed.
+
+(* the common-exponent rescaling before stacking: every rescaled chunk times 10^emax is
+   the value of the chunk *)
+Lemma exps_of_strip : forall (chunks : list (nat * sval R R)) es,
+  exps_of R R chunks = Some es ->
+  Forall (fun kc => exists m e, snd kc = Strip m e) chunks.
+Proof.
+  induction chunks as [|[k c] chunks IH]; intros es H; cbn [exps_of fold_right] in H.
+  - constructor.
+  - fold (exps_of R R chunks) in H. cbn [snd] in H.
+    destruct c as [m|m e]; [discriminate|].
+    destruct (exps_of R R chunks) as [l|] eqn:X; [|discriminate].
+    constructor; [exists m, e; reflexivity | eapply IH; reflexivity].
+Qed.
+
+Lemma gather_stack_value : forall chunks res em,
+  R_gather_stack chunks = Some (res, Some em) ->
+  map (fun km => (fst km, R_mscale_r (snd km) (pow10 em))) res = map kvalue chunks.
+Proof.
+  intros chunks res em H. unfold R_gather_stack, gather_stack in H.
+  destruct chunks as [|[k0 c0] chunks0] eqn:EC; [discriminate|].
+  destruct c0 as [m0|m0 e0].
+  - destruct (forallb _ _); discriminate.
+  - rewrite <- EC in *.
+    destruct (exps_of R R chunks) as [es|] eqn:X; [|discriminate].
+    destruct (pymax_list R Rmax es) as [em'|]; [|discriminate].
+    match type of H with (if ?c then _ else _) = _ => destruct c end; [discriminate|].
+    injection H as Eres Eem. subst res em'.
+    pose proof (exps_of_strip _ _ X) as Hs. clear X EC.
+    rewrite map_map. apply map_ext_in. intros [k c] Hin. cbn [fst snd].
+    rewrite Forall_forall in Hs. destruct (Hs _ Hin) as [m [e E]]. cbn [snd] in E. subst c.
+    unfold kvalue. cbn [fst snd R_value]. fold R_mscale_r.
+    rewrite R_mscale_r_mul, pow10_diff. reflexivity.
+Qed.
+
+Lemma gather_stack_plain : forall chunks res,
+  R_gather_stack chunks = Some (res, None) -> res = map kvalue chunks.
+Proof.
+  intros chunks res H. unfold R_gather_stack, gather_stack in H.
+  destruct chunks as [|[k0 c0] chunks0] eqn:EC; [discriminate|].
+  destruct c0 as [m0|m0 e0].
+  - rewrite <- EC in *.
+    destruct (forallb _ chunks) eqn:A; [|discriminate].
+    injection H as E. subst res. rewrite forallb_forall in A.
+    apply map_ext_in. intros [k c] Hin. specialize (A _ Hin). cbn [snd fst] in *.
+    destruct c; [reflexivity | discriminate].
+  - rewrite <- EC in *.
+    destruct (exps_of R R chunks); [|discriminate].
+    destruct (pymax_list R Rmax l); [|discriminate].
+    match type of H with (if ?c then _ else _) = _ => destruct c end; discriminate.
+Qed.
+
+(* the exponent returned with the stack is the largest chunk exponent, so no rescaling
+   factor exceeds 1 (nothing can overflow in `mi * 10 ** (ei - emax)`) *)
+Lemma fold_Rmax_ge_init : forall l x, x <= fold_left Rmax l x.
+Proof.
+  induction l as [|y l IH]; intro x; cbn [fold_left]; [lra|].
+  eapply Rle_trans; [apply (Rmax_l x y) | apply IH].
+Qed.
+
+Lemma fold_Rmax_ge_In : forall l x e, In e l -> e <= fold_left Rmax l x.
+Proof.
+  induction l as [|y l IH]; intros x e H; cbn [fold_left]; [destruct H|].
+  destruct H as [H|H].
+  - subst y. eapply Rle_trans; [apply (Rmax_r x e) | apply fold_Rmax_ge_init].
+  - apply IH; exact H.
+Qed.
+
+Lemma exps_of_In : forall (chunks : list (nat * sval R R)) es k m e,
+  exps_of R R chunks = Some es -> In (k, Strip m e) chunks -> In e es.
+Proof.
+  induction chunks as [|[k' c] chunks IH]; intros es k m e H Hin; [destruct Hin|].
+  cbn [exps_of fold_right] in H. fold (exps_of R R chunks) in H. cbn [snd] in H.
+  destruct c as [m'|m' e']; [discriminate|].
+  destruct (exps_of R R chunks) as [l|] eqn:X; [|discriminate].
+  injection H as E. subst es. destruct Hin as [Hin|Hin].
+  - injection Hin as _ _ Ee. subst e'. left. reflexivity.
+  - right. eapply IH; [reflexivity | exact Hin].
+Qed.
+
+Lemma pow10_le_1 : forall x, x <= 0 -> pow10 x <= 1.
+Proof.
+  intros x H. rewrite <- pow10_0. unfold pow10. apply Rle_Rpower; lra.
+Qed.
+
+Lemma stack_factors_le_1 : forall chunks res em k m e,
+  R_gather_stack chunks = Some (res, Some em) -> In (k, Strip m e) chunks ->
+  e <= em /\ pow10 (e - em) <= 1.
+Proof.
+  intros chunks res em k m e H Hin. unfold R_gather_stack, gather_stack in H.
+  destruct chunks as [|[k0 c0] chunks0] eqn:EC; [discriminate|].
+  destruct c0 as [m0|m0 e0].
+  - destruct (forallb _ _); discriminate.
+  - rewrite <- EC in *.
+    destruct (exps_of R R chunks) as [es|] eqn:X; [|discriminate].
+    destruct (pymax_list R Rmax es) as [em'|] eqn:P; [|discriminate].
+    match type of H with (if ?c then _ else _) = _ => destruct c end; [discriminate|].
+    injection H as _ Eem. subst em'.
+    pose proof (exps_of_In _ _ _ _ _ X Hin) as Hes.
+    assert (L : e <= em).
+    { unfold pymax_list in P. destruct es as [|x r]; [discriminate|].
+      injection P as P. subst em. destruct Hes as [Hes|Hes].
+      - subst x. apply fold_Rmax_ge_init.
+      - apply fold_Rmax_ge_In. exact Hes. }
+    split; [exact L | apply pow10_le_1; lra].
+Qed.
